@@ -197,7 +197,7 @@ fn decode_mutation(c: &mut Cur) -> c01::Mutation {
         2 => UriInsert(c.u16(), c.u16()),
         3 => UriDelete(c.u16()),
         4 => ToggleTrailingSlash,
-        5 => PathSpaceToPlus,
+        5 => match c.pick(3) { 0 => PathSpaceToPlus, 1 => PathSlashEscape(c.u16()), _ => MethodTunnel(c.u8()) },
         6 => AppendParam(c.u16()),
         7 => DuplicateParam(c.u16()),
         8 => RemoveParam(c.u16()),
